@@ -48,9 +48,12 @@ IsRead(e)  == e.op.op \in {"BlobGet", "ManGet"}
 IsEnv(e)   == e.op.op \in {"Restart", "Reconf", "GC", "GCPass", "Age", "MkCorrupt", "ProbeAll", "Tick", "Evict"}
 
 \* the response: class, pinned status, and the fields the properties name
+\* an event during which one file system call of the store failed (injected, harness command `fault`): the response is
+\* not pinned (storage was not healthy), the state is bound to the observation (FaultBind) and judged by fault.safe
+IsFault(e) == "fault" \in DOMAIN e
 CResp(e) ==
   LET p == resp' IN
-  /\ IsEnv(e) \/ p.class = "any" \/ RespClass(e) = p.class
+  /\ IsFault(e) \/ IsEnv(e) \/ p.class = "any" \/ RespClass(e) = p.class
   /\ (p.status # 0 /\ ~IsEnv(e)) => e.resp.status = p.status
   /\ (p.dig # "" /\ e.op.op \in {"UpPost", "UpPut"}) => e.resp.locdig = p.dig
   /\ (p.dig # "" /\ e.op.op = "ManPut") => e.resp.dig = p.dig /\ e.resp.locdig = p.dig
@@ -124,7 +127,7 @@ CEvict(e) == /\ (e.op.op = "Evict" => EvictOK(EvictedOf(e.op)))
 
 \* C15: nothing met while executing or observing was a panic, a hang or a 5xx
 CNoErr(e) ==
-  /\ ~e.resp.panic /\ ~e.resp.hung /\ ((IsEnv(e) /\ e.op.op # "ProbeAll") \/ e.resp.status < 500)
+  /\ ~e.resp.panic /\ ~e.resp.hung /\ ((IsEnv(e) /\ e.op.op # "ProbeAll") \/ IsFault(e) \/ e.resp.status < 500)
   /\ \A r \in DOMAIN e.obs : e.obs[r].errs = <<>>
 
 \* C05 / C06: a collection (op GC, or the collection a directory store runs on Close = op Restart).  `pre` is the
@@ -202,10 +205,45 @@ CRORefused(e) == Disabled(e) => /\ e.resp.status \in 400..499
 \* C16: nothing outside the root directory changes
 CConfined(e) == e.outsum = osum
 
+\* A request during which a file system call failed: whatever it answers, nothing that was held before is lost (except
+\* what the request itself was to remove), nothing appears but what the request was to add, and what is there is served
+\* intact (integrity) and described by the directory (disk.*) -- unprimed = the state before the request.
+\* The harness repeats the request (phase "retry") and then restarts the server (phase "restart"): after the restart what
+\* the faulted request may have left half done in memory may be there or not, and what the repeated request acknowledged
+\* is in effect.
+FAdds(op) == IF op.op \in {"UpPut", "UpPost"} /\ op.dig \in Digs THEN {op.dig}
+             ELSE IF op.op = "ManPut" /\ IsManC(op.body) THEN {d \in Digs : CidOf(d) = op.body} ELSE {}
+FRemB(op) == IF op.op = "BlobDel" THEN {op.dig} ELSE {}
+FRemM(op) == IF op.op = "ManDel" /\ op.ref.k = "dig" THEN {op.ref.v} ELSE {}
+FTag(op) == IF op.op \in {"ManPut", "ManDel"} /\ op.ref.k = "tag" THEN {op.ref.v} ELSE {}
+FAcked(op, OB, OM, OT) ==
+  CASE op.op = "ManPut" -> \E d \in FAdds(op) : d \in OM /\ (op.ref.k = "tag" => <<op.ref.v, d>> \in OT)
+    [] op.op \in {"UpPut", "UpPost"} -> op.dig \in OB
+    [] op.op = "ManDel" -> IF op.ref.k = "dig" THEN op.ref.v \notin OM ELSE ~\E x \in OT : x[1] = op.ref.v
+    [] op.op = "BlobDel" -> op.dig \notin OB
+    [] OTHER -> TRUE
+CFaultSafe(e) ==
+  IsFault(e) =>
+    LET both == e.fault.phase = "restart"
+        op == IF both THEN lastop ELSE e.op
+        A == FAdds(op)
+        AB == IF both THEN FAdds(op) \cup FRemB(op) ELSE FAdds(op)        \* may appear
+        RB == IF both THEN FAdds(op) \cup FRemB(op) ELSE FRemB(op)        \* may be gone
+        AM == IF both THEN FAdds(op) \cup FRemM(op) ELSE FAdds(op)
+        RM == IF both THEN FAdds(op) \cup FRemM(op) \cup FRemB(op) ELSE FRemM(op) \cup FRemB(op)
+    IN \A r \in DOMAIN e.obs :
+     /\ (blob[r] \ RB) \subseteq ObsB(e, r)
+     /\ ObsB(e, r) \subseteq blob[r] \cup AB
+     /\ (ManSet(r) \ RM) \subseteq ObsM(e, r)
+     /\ ObsM(e, r) \subseteq ManSet(r) \cup AM
+     /\ \A t \in DOMAIN tag[r] : (tag[r][t] \in blob[r] \ RB /\ tag[r][t] \notin RM /\ t \notin FTag(op)) => <<t, tag[r][t]>> \in ObsT(e, r)
+     /\ \A x \in ObsT(e, r) : (x[1] \in DOMAIN tag[r] /\ tag[r][x[1]] = x[2]) \/ (x[1] \in FTag(op) /\ (x[2] \in A \/ both)) \/ (both /\ x[2] \in RM)
+     /\ (both /\ e.fault.acked /\ r = op.repo) => FAcked(op, ObsB(e, r), ObsM(e, r), ObsT(e, r))
+
 Clauses(e) ==
   { <<"resp", CResp(e)>>, <<"tagsresp", CTagsResp(e)>>, <<"integrity", CIntegrity(e)>>, <<"sync.blobs", CSyncBlobs(e)>>,
     <<"sync.mans", CSyncMans(e)>>, <<"sync.tags", CSyncTags(e)>>, <<"taglist", CTagList(e)>>,
-    <<"refs", CRefs(e)>>, <<"refs.foreign", CRefsForeign(e)>>, <<"sess", CSess(e)>>, <<"sess.evict", CEvict(e)>>, <<"noerr", CNoErr(e)>>,
+    <<"refs", CRefs(e)>>, <<"refs.foreign", CRefsForeign(e)>>, <<"sess", CSess(e)>>, <<"sess.evict", CEvict(e)>>, <<"noerr", CNoErr(e)>>, <<"fault.safe", CFaultSafe(e)>>,
     <<"gc.safe", CGCSafe(e)>>, <<"gc.exact", CGCExact(e)>>, <<"gc.idem", CGCIdem(e)>>, <<"gc.index", CGCIndex(e)>>,
     <<"disk.layout", CDiskLayout(e)>>, <<"disk.index", CDiskIndex(e)>>, <<"disk.files", CDiskFiles(e)>>,
     <<"ro.frozen", CROFrozen(e)>>, <<"ro.refused", CRORefused(e)>>, <<"confined", CConfined(e)>> }
@@ -225,6 +263,9 @@ Enforced ==
     C14F |-> {"ro.frozen", "ro.refused", "noerr"},      \* pre-existing foreign directories: content outside the catalogue
     C16 |-> {"confined", "resp", "sync.blobs", "sync.mans", "sync.tags", "taglist", "refs", "refs.foreign", "sess", "noerr"},
     C09 |-> {"resp", "sync.blobs", "sync.mans", "sync.tags", "noerr"},
+    \* histories with one failing file system call (harness command `fault`), used by the checks of C02 and C08
+    FAULT |-> {"fault.safe", "integrity", "resp", "sync.blobs", "sync.mans", "sync.tags", "taglist", "refs", "sess",
+               "disk.layout", "disk.index", "disk.files", "noerr"},
     C06 |-> {"gc.exact", "gc.idem", "gc.safe", "gc.index", "sync.blobs", "sync.mans", "sync.tags", "taglist", "noerr"} ]
 
 Active == UNION {Enforced[p] : p \in Focus \cap DOMAIN Enforced}
@@ -240,7 +281,9 @@ Detail(e) ==
                         S(y.list) # {d \in {z \in DOMAIN man'[r] : SubjectOf(z) = y.s} : y.f = "" \/ ATOf(d) = y.f}}},
       resp_model |-> resp']]
 
-Failed(e) == {c[1] : c \in {x \in Clauses(e) : ~x[2] /\ x[1] \in Active}}
+\* (for the three events around an injected fault only what the properties still say applies)
+FaultClauses == {"fault.safe", "integrity", "noerr"}
+Failed(e) == {c[1] : c \in {x \in Clauses(e) : ~x[2] /\ x[1] \in Active /\ (IsFault(e) => x[1] \in FaultClauses)}}
 
 -----------------------------------------------------------------------------
 \* A collection is nondeterministic in the model (MustBlobs <= kept <= MayBlobs): bind the next state to what was
@@ -256,7 +299,23 @@ GCBind(e) ==
   /\ resp' = Ok(0)
   /\ UNCHANGED <<env, nsess, base>> /\ ClockStep
 IsCollection(e) == GCRepos(e) # {} /\ ~(e.op.op = "Restart" /\ GCNoop)
-Step(e) == IF IsCollection(e) THEN GCBind(e) ELSE Do(e.op)
+\* A request during which a file system call failed: the next state is what was observed (judged by fault.safe);
+\* a session is open afterwards iff it was open before and is still observed open
+ObsOpenSess(e) == UNION {{x.h : x \in {y \in S(e.obs[r].sess) : y.st = 204}} : r \in DOMAIN e.obs}
+FaultBind(e) ==
+  /\ blob' = [r \in Repos |-> IF r \in DOMAIN e.obs THEN ObsB(e, r) ELSE blob[r]]
+  /\ man' = [r \in Repos |-> IF r \in DOMAIN e.obs THEN [d \in ObsM(e, r) |-> (CHOOSE x \in S(e.obs[r].mans) : x.d = d).mt] ELSE man[r]]
+  /\ tag' = [r \in Repos |-> IF r \in DOMAIN e.obs
+                               THEN [t \in {x.t : x \in S(e.obs[r].tags)} |-> (CHOOSE x \in S(e.obs[r].tags) : x.t = t).d] ELSE tag[r]]
+  /\ young' = [r \in Repos |-> IF r \in DOMAIN e.obs THEN (young[r] \cap ObsB(e, r)) \cup (ObsB(e, r) \ blob[r]) ELSE young[r]]
+  \* (a session handle handed out by this request keeps the numbering of the handles in step; no session survives the restart)
+  /\ LET S0 == [h \in DOMAIN sess |-> IF sess[h].open /\ h \notin ObsOpenSess(e) THEN [sess[h] EXCEPT !.open = FALSE] ELSE sess[h]]
+         new == e.resp.sess # "" /\ e.resp.sess \notin DOMAIN sess
+     IN /\ sess' = IF new THEN Upd(S0, e.resp.sess, [NoSess EXCEPT !.open = (e.resp.sess \in ObsOpenSess(e)), !.repo = e.op.repo, !.used = clk.now]) ELSE S0
+        /\ nsess' = IF new THEN nsess + 1 ELSE nsess
+  /\ resp' = Ok(0)
+  /\ UNCHANGED <<env, base>> /\ ClockStep
+Step(e) == IF IsFault(e) THEN FaultBind(e) ELSE IF IsCollection(e) THEN GCBind(e) ELSE Do(e.op)
 
 TraceInit ==
   /\ Trace[1].k = "reset"
